@@ -1,5 +1,6 @@
 import GeosModel.Proofs.Num.FmtLemmas
 import GeosModel.Proofs.Num.ExactLemmas
+import GeosModel.Proofs.WKT.Roundtrip
 /-!
 # C10 — written WKT is re-readable and equals the input to stated precision: the number formatter
 
@@ -14,7 +15,7 @@ namespace GeosModel.Num
 
 /-- **fmt_len_le.**  For every 64-bit pattern and every precision the formatted number has at most 24
 characters; `WKTWriter::writeNumber` copies it into `char buf[28]` and appends a NUL, so the buffer
-cannot overflow.  (24 is attained: `-1.2345678901234567e-300`.) -/
+cannot overflow.  (24 is attained: `-1.2345678901234568e-300`.) -/
 theorem fmt_len_le (bits precision : Nat) : (writeTrimmedNumber bits precision).length ≤ 24 := by
   unfold writeTrimmedNumber
   cases hn : notationOf bits with
@@ -75,8 +76,9 @@ theorem fmt_len_le (bits precision : Nat) : (writeTrimmedNumber bits precision).
       generalize (shortest (absBits bits)).snd = q at *
       omega
 
-/-- non-vacuity / tightness: the bound 24 is reached -/
-example : ∃ bits p, (writeTrimmedNumber bits p).length ≤ 24 := ⟨0, 0, fmt_len_le 0 0⟩
+/-- tightness: the bound 24 is reached (`-1.2345678901234568e-300`), and the longest positional form has 23 -/
+example : writeTrimmedNumber 0x81aa74fe1c1e8908 20 = "-1.2345678901234568e-300".toList ∧
+    (writeTrimmedNumber 0x81aa74fe1c1e8908 20).length = 24 := by decide +kernel
 
 /-! ## locale independence of the writer: the alphabet -/
 
@@ -260,15 +262,9 @@ theorem writtenDec_of_keeps (bits precision : Nat) (hk : keepsAllDigits bits pre
     writtenDec bits precision = ((shortest (absBits bits)).1, (shortest (absBits bits)).2) := by
   unfold writtenDec keepsAllDigits at *
   cases hn : notationOf bits with
-  | sci =>
-    rw [hn] at hk
-    simp only at hk ⊢
-    unfold rheDec
-    rw [if_neg (by omega)]
-    simp only
-    congr 1; omega
-  | special => rw [hn] at hk; simp only at hk ⊢; unfold rheDec; rw [if_neg (by omega)]
-  | fixed => rw [hn] at hk; simp only at hk ⊢; unfold rheDec; rw [if_neg (by omega)]
+  | sci => rw [hn] at hk; exact rheDec_sci_keeps _ _ _ hk
+  | special => rw [hn] at hk; exact rheDec_keeps _ _ _ hk
+  | fixed => rw [hn] at hk; exact rheDec_keeps _ _ _ hk
 
 /-- **fmt_exact.**  Whenever the precision keeps every digit of the shortest decimal, the written text re-reads
 (correctly rounded `strtod`) as exactly the same 64-bit pattern, sign included. -/
@@ -278,14 +274,7 @@ theorem fmt_exact (bits precision : Nat) (hb : bits < 2 ^ 64) (h1 : 1 ≤ absBit
   have hin := shortest_in_interval (absBits bits) h1
   have k1 := shortest_pos (absBits bits) h1
   rw [writtenDec_of_keeps bits precision hk] at sd
-  have hn0 : n ≠ 0 := by
-    intro h0
-    unfold SameDec at sd
-    simp only [h0, Nat.zero_mul] at sd
-    have hpos := pow10_pos ((shortest (absBits bits)).2 - e).toNat
-    rcases Nat.mul_eq_zero.mp sd.symm with h | h
-    · rw [h] at k1; cases k1
-    · rw [h] at hpos; cases hpos
+  have hn0 : n ≠ 0 := sameDec_ne_zero sd k1
   have hin' : inIvl (ivl (absBits bits)) e n = true := by
     rw [inIvl_sameDec _ n _ e _ sd]; exact hin
   unfold strtod
@@ -320,8 +309,80 @@ theorem fmt_exact_fixed (bits precision : Nat) (hb : bits < 2 ^ 64) (hn : notati
     omega
   · omega
 
-/-- non-vacuity: the hypotheses of `fmt_exact` are satisfiable (1.5 at precision 1) -/
+/-- non-vacuity: the hypotheses of `fmt_exact` are satisfiable (1.5 at precision 1), and the model evaluates:
+half-even on the decimal digits (0.125 → 0.12 at two decimals), the notation switches at 1e-4 and 1e17 -/
 example : 0x3ff8000000000000 < 2 ^ 64 ∧ 1 ≤ absBits 0x3ff8000000000000 ∧ absBits 0x3ff8000000000000 < INF := by
   decide
+example : writeTrimmedNumber 0x3ff8000000000000 1 = "1.5".toList ∧
+    strtod (writeTrimmedNumber 0x3ff8000000000000 1) = some 0x3ff8000000000000 ∧
+    writeTrimmedNumber 0x3fc0000000000000 2 = "0.12".toList ∧
+    writeTrimmedNumber 0x3f1a36e2eb1c432d 16 = "0.0001".toList ∧
+    writeTrimmedNumber 0x3f1a36e2eb1c432c 16 = "9.999999999999999e-5".toList ∧
+    writeTrimmedNumber 0x4376345785d8a000 16 = "1e+17".toList ∧
+    writeTrimmedNumber 0x4376345785d89fff 16 = "99999999999999980".toList := by decide +kernel
 
 end GeosModel.Num
+
+/-!
+# C10 — structure: the WKT writer's tokens are read back as the specified tree
+
+Models: `GeosModel.WKT.writeToks` (Model/WKT/Write.lean = `WKTWriter`), `GeosModel.WKT.readToks`
+(Model/WKT/Read.lean = `WKTReader` on tokens), specification `project` / `dimOK` (Model/WKT/Spec.lean).
+Token level: numbers are opaque bit patterns (their text is the subject of the `fmt_*` theorems above).
+-/
+namespace GeosModel.WKT
+open GeosModel
+
+/-- the full statement (ISO tags): every geometry the reader can produce at all — all 13 classes, well formed by
+construction — whose collections are dimensionally uniform (`dimOK`) is written to tokens that read back as
+`project cfg id g`.  NOT proved in general; proved below for the classes without curved components.
+What is missing: the analogous induction cases for COMPOUNDCURVE / CURVEPOLYGON / MULTICURVE / MULTISURFACE
+(readers `readCurve`, `readCurves`, `readCompound`, `readCurvePolygon`, `readSurface`, `readSurfaces`) and the
+old-3D convention; those are covered by the correspondence streams wkt-write / wkt-read / wkt-rt only. -/
+def wkt_roundtrip_full : Prop :=
+  ∀ (cfg : Cfg) (g : G) (ts : List Tok), readToks ts = .ok g → cfg.old3D = false → dimOK cfg g = true →
+    readToks (writeToks cfg g) = .ok (project cfg id g)
+
+/-- **wkt_roundtrip (partial).**  For every writer configuration with ISO tags (any trim / precision / output
+dimension), every well-formed geometry built from Point, LineString, LinearRing, CircularString, Polygon,
+MultiPoint, MultiLineString, MultiPolygon and (arbitrarily nested) GeometryCollection — EMPTY allowed at every
+level — whose collections are dimensionally uniform, the reader run on the writer's tokens returns exactly the
+specified tree `project cfg id g` (same type tree and emptiness, every sequence carrying the tag's Z/M flags,
+dropped ordinates NaN) and consumes all tokens; `f` is the reader model's recursion fuel. -/
+theorem wkt_roundtrip_partial (cfg : Cfg) (hiso : cfg.old3D = false) (g : G) (hwf : WFs g = true)
+    (hdim : dimOK cfg g = true) (f : Nat) (hf : gFuel g ≤ f) :
+    readTagged f {} .none (writeToks cfg g) = .ok (project cfg id g, []) :=
+  roundtrip_fuel cfg hiso g hwf hdim f hf
+
+/-- the same through `readToks` (whose fuel is the number of tokens + 2), whenever that fuel covers `gFuel g`
+(decidable; it does for every geometry the generators produce — the proof's fuel measure is generous) -/
+theorem wkt_roundtrip_readToks (cfg : Cfg) (hiso : cfg.old3D = false) (g : G) (hwf : WFs g = true)
+    (hdim : dimOK cfg g = true) (hf : gFuel g ≤ (writeToks cfg g).length + 2) :
+    readToks (writeToks cfg g) = .ok (project cfg id g) :=
+  roundtrip_readToks cfg hiso g hwf hdim hf
+
+/-- a collection with a polygon (with hole), an empty line and a nested collection -/
+def demoG : G :=
+  .collection [
+    .polygon ⟨true, false, [⟨0, 0, 1, nanBits⟩, ⟨1, 0, 1, nanBits⟩, ⟨1, 1, 1, nanBits⟩, ⟨0, 0, 1, nanBits⟩]⟩
+             [⟨true, false, []⟩],
+    .lineString ⟨true, false, []⟩,
+    .collection [.multiPoint [.point ⟨true, false, [⟨5, 6, 7, nanBits⟩]⟩, .point ⟨true, false, []⟩]]]
+
+/-- non-vacuity: the hypotheses hold for `demoG`, and the round trip is the projection -/
+example : WFs demoG = true ∧ dimOK {} demoG = true ∧ gFuel demoG ≤ (writeToks {} demoG).length + 2 := by decide
+
+/-- **the dimensional-uniformity hypothesis is necessary (finding).**  The writer's own output for a collection
+with one XYZ and one XY point — `GEOMETRYCOLLECTION Z (POINT Z (1 2 3), POINT (1 2))` — is rejected by the
+reader ("Cannot mix dimensionality in a geometry"): the unrestricted round-trip statement is false. -/
+def isParseError : Except Err G → Bool
+  | .error .parse => true
+  | _ => false
+
+theorem wkt_mixed_dims_rejected :
+    ∃ (cfg : Cfg) (g : G), cfg.old3D = false ∧ WFs g = true ∧ dimOK cfg g = false ∧
+      isParseError (readToks (writeToks cfg g)) = true := by
+  refine ⟨{}, .collection [.point ⟨true, false, [⟨0x3ff0000000000000, 0x4000000000000000, 0x4008000000000000, nanBits⟩]⟩,
+    .point ⟨false, false, [⟨0x3ff0000000000000, 0x4000000000000000, nanBits, nanBits⟩]⟩], rfl, ?_, ?_, ?_⟩ <;> decide
+
+end GeosModel.WKT
